@@ -650,8 +650,8 @@ const PATHS: &[PathDef] = &[
     PathDef { ctor: "P_delete_where", sql: "DELETE FROM u WHERE v > 1", required: &[(U, DEL)], checked_extra: &[], class: "" },
     PathDef { ctor: "P_delete_pk", sql: "DELETE FROM u WHERE id = 1", required: &[(U, DEL)], checked_extra: &[], class: "" },
     PathDef { ctor: "P_delete_all", sql: "DELETE FROM u", required: &[(U, DEL)], checked_extra: &[], class: "" },
-    PathDef { ctor: "P_delete_where_subquery", sql: "DELETE FROM u WHERE k IN (SELECT k FROM s)", required: &[(U, DEL), (S, SEL)], checked_extra: &[], class: "" },
-    PathDef { ctor: "P_delete_where_exists", sql: "DELETE FROM u WHERE EXISTS (SELECT 1 FROM s WHERE s.k = u.k)", required: &[(U, DEL), (S, SEL)], checked_extra: &[], class: "" },
+    PathDef { ctor: "P_delete_where_subquery", sql: "DELETE FROM u WHERE k IN (SELECT k FROM s)", required: &[(U, DEL), (S, SEL)], checked_extra: &[], class: "delete-where-error-swallowed" },
+    PathDef { ctor: "P_delete_where_exists", sql: "DELETE FROM u WHERE EXISTS (SELECT 1 FROM s WHERE s.k = u.k)", required: &[(U, DEL), (S, SEL)], checked_extra: &[], class: "delete-where-error-swallowed" },
     PathDef { ctor: "P_truncate", sql: "TRUNCATE TABLE u", required: &[(U, DEL)], checked_extra: &[], class: "" },
     PathDef { ctor: "P_truncate_multi", sql: "TRUNCATE TABLE u, m", required: &[(U, DEL), (M, DEL)], checked_extra: &[], class: "" },
     PathDef { ctor: "P_truncate_cascade", sql: "TRUNCATE TABLE p CASCADE", required: &[(P, DEL), (D, DEL)], checked_extra: &[], class: "" },
@@ -1170,10 +1170,13 @@ fn main() {
                         // one partition for all rows = the subquery's value did not reach the result (with SELECT on S
                         // the fixture gives two partitions)
                         let single_partition = matches!(&out, Outcome::Rows(r) if r.iter().all(|x| x.len() == 2 && canon_value(&x[1]) == canon_value(&r[0][1])));
-                        let class = if pd.class == "window-partition-error-swallowed" && changed.is_empty() && lacking == vec![(S, SEL)] && single_partition {
+                        let class = if pd.class == "delete-where-error-swallowed" && changed.is_empty() && lacking == vec![(S, SEL)] && matches!(out, Outcome::Count(0)) {
+                            // nothing read, nothing deleted: the refusal inside the WHERE clause was swallowed
+                            "delete-where-error-swallowed"
+                        } else if pd.class == "window-partition-error-swallowed" && changed.is_empty() && lacking == vec![(S, SEL)] && single_partition {
                             // the statement ran, but without the refused subquery: every row lands in the NULL partition
                             "window-partition-error-swallowed"
-                        } else if !pd.class.is_empty() && pd.class != "window-partition-error-swallowed" && pd.class != "truncate-multi-cascade-partial" {
+                        } else if !pd.class.is_empty() && pd.class != "window-partition-error-swallowed" && pd.class != "delete-where-error-swallowed" && pd.class != "truncate-multi-cascade-partial" {
                             // the class is about exactly one missing privilege per path
                             let about: (u8, u8) = match pd.class {
                                 "count-star-fast-path" | "in-subquery-index-path" | "insert-select-bulk-transfer" => (S, SEL),
